@@ -46,9 +46,19 @@ func dumpNodeHex(n any) string {
 	return dumpVal(reflect.ValueOf(n))
 }
 
+var dumpDepthCap = 20000
+
+// dumpShallow: the dump cut below n levels (a cheap content key for nodes that sit on top of very deep trees)
+func dumpShallow(v reflect.Value, n int) string {
+	old := dumpDepthCap
+	dumpDepthCap = n
+	defer func() { dumpDepthCap = old }()
+	return dumpVal(v)
+}
+
 func dumpInto(b *strings.Builder, v reflect.Value, depth int) {
-	if depth > 20000 {
-		b.WriteString("nil")
+	if depth > dumpDepthCap {
+		b.WriteString("…")
 		return
 	}
 	if !v.IsValid() {
